@@ -127,6 +127,7 @@ fn walk(args: &vlib::Args) {
         avoid_known: args.flag("avoid-known"),
         exclude: args.get_or("exclude", "").split(',').filter(|s| !s.is_empty()).map(|s| s.to_string()).collect(),
     };
+    block::POOL.with(|p| p.borrow_mut().set_protect(cfg.relocate));
     let seed = vlib::seed_from_env();
     let mode = args.get_or("mode", "cover");
     let mut w = walker::Walker::new(&aut, cfg);
@@ -152,7 +153,7 @@ fn walk(args: &vlib::Args) {
         "relocate": w.cfg.relocate, "steps": w.stats.steps, "paths": w.stats.paths,
         "relocations": w.stats.relocations, "drop_checks": w.stats.drop_checks,
         "per_action": w.stats.per_action, "distinct_edges": w.covered.len(),
-        "detail": detail, "divergences": divs, "sample": w.sample,
+        "detail": detail, "divergences": divs, "construct_failed": w.construct_failed, "sample": w.sample,
     }));
 }
 
